@@ -43,6 +43,7 @@ class Work:
     """Private scratch directory under /verif/.work, removed on exit."""
 
     def __init__(self, pid):
+        self.prop = pid if re.fullmatch(r"C\d\d", pid) else None
         self.dir = os.path.join(VERIF, ".work", "%s-%d" % (pid, os.getpid()))
         shutil.rmtree(self.dir, ignore_errors=True)
         os.makedirs(self.dir)
@@ -62,21 +63,52 @@ class Work:
 # Go harness build: from /repo's current working tree, tag verif, overlay-injected export files
 
 
-def overlay_map():
-    """hooks/<relative path in repo> -> injected at REPO/<relative path>."""
+# hook groups: build tag of the harness -> overlay files it needs. A check is built with every group; if that build fails
+# (the repository changed an internal interface a hook file relies on) it is built once more with only the groups the
+# property itself needs, so that one broken hook does not take the other properties' checks with it.
+HOOK_GROUPS = {
+    "hscan": ["notations/jschema/verif_scan.go", "rules/enum/verif_scan.go"],
+    "hcons": ["notations/jschema/verif_constraints.go"],
+    "hnum": ["verifhooks/number.go"],
+    "hyield": ["verifhooks/yield.go"],
+}
+HOOKS_NEEDED = {"C06": ["hscan"], "C07": ["hscan"], "C17": ["hscan"], "C10": ["hnum"], "C12": ["hyield"], "C19": ["hcons"]}
+
+
+def overlay_map(groups=None):
+    """hooks/<relative path in repo> -> injected at REPO/<relative path> (only the files of the given hook groups)."""
     m = {}
+    known = {f for fs in HOOK_GROUPS.values() for f in fs}
+    wanted = known if groups is None else {f for g in groups for f in HOOK_GROUPS[g]}
     for root, _, files in os.walk(HOOKS):
         for f in files:
             if not f.endswith(".go"):
                 continue
             src = os.path.join(root, f)
             rel = os.path.relpath(src, HOOKS)
+            if rel in known and rel not in wanted:
+                continue
             m[os.path.join(REPO, rel)] = src
     return m
 
 
 def build_harness(work, race=False, extra_overlay=None, name="harness"):
-    ov = overlay_map()
+    out, log = _build_harness(work, race, extra_overlay, name, sorted(HOOK_GROUPS))
+    if out is None:
+        prop = getattr(work, "prop", None)
+        need = HOOKS_NEEDED.get(prop, []) if prop else None
+        if need is not None and sorted(need) != sorted(HOOK_GROUPS):
+            out2, log2 = _build_harness(work, race, extra_overlay, name, need)
+            if out2 is not None:
+                print("NOTE: the harness did not build with every hook group; built with %s only" % (need or "no hooks"), flush=True)
+                return out2
+            log = log2
+        die_infra("harness build failed:\n" + log[-4000:])
+    return out
+
+
+def _build_harness(work, race, extra_overlay, name, groups):
+    ov = overlay_map(groups)
     if extra_overlay:
         ov.update(extra_overlay)
     ovf = work.path("overlay-%s.json" % name)
@@ -88,7 +120,7 @@ def build_harness(work, race=False, extra_overlay=None, name="harness"):
     except OSError:
         pass
     out = work.path(name)
-    cmd = ["go", "build", "-tags", "verif", "-overlay", ovf, "-o", out]
+    cmd = ["go", "build", "-tags", ",".join(["verif"] + list(groups)), "-overlay", ovf, "-o", out]
     if REPO != "/repo":
         # scratch worktree of the repository (seeded-change trials): same harness, module replaced through a private go.mod
         mf = work.path("go-%s.mod" % name)
@@ -103,8 +135,8 @@ def build_harness(work, race=False, extra_overlay=None, name="harness"):
     cmd.append(".")
     p = subprocess.run(cmd, cwd=HARNESS, env=e, stdout=subprocess.PIPE, stderr=subprocess.STDOUT, text=True)
     if p.returncode != 0:
-        die_infra("harness build failed:\n" + p.stdout[-4000:])
-    return out
+        return None, p.stdout
+    return out, ""
 
 
 def run_harness(binpath, args, stdin_path=None, stdout_path=None, timeout=3600, env_extra=None, input_bytes=None):
